@@ -186,6 +186,7 @@ def r3(ctx, P):
 
 
 def r4(ctx, P):
+    from ..fd import trace_calls
     fd = FD(P)
     wr = P.fn('jls_raw_wr_payload')
     need = P.fn('payload_size_on_disk')
@@ -193,43 +194,108 @@ def r4(ctx, P):
     ctx.saw(need)
     hdr_size = P.record('jls_chunk_header_s')['size']
     fw = [c for c in wr.calls('jls_bk_fwrite')]
-    if len(fw) < 2:
-        raise AnalysisBroken('jls_raw_wr_payload: expected two writes (payload, footer)')
-    fw = ser.ordered(wr, fw)
-    pay, foot = fw[0], fw[-1]
-    lp = wr.path(strip_casts(pay.args[2]))
-    if lp is None:
-        raise AnalysisBroken('payload write length is not a path')
+    if not fw:
+        raise AnalysisBroken('jls_raw_wr_payload: no backend write')
+    # the footer array: the local array whose elements are stored with crc bytes
+    foot_name = None
+    for ev in wr.stores():
+        l0 = strip_casts(ev.store_parts()[0])
+        if l0.get('op') == 'sub' and strip_casts(l0['k'][0]).get('op') == 'ref' and ev.store_parts()[1] is not None and \
+                any(nd.get('op') == 'bin' and nd['o'] == '>>' for nd in walk(ev.store_parts()[1])):
+            foot_name = strip_casts(l0['k'][0])['name']
+    if foot_name is None:
+        raise AnalysisBroken('jls_raw_wr_payload: CRC footer array not found')
+    foot = [c for c in fw if any(nd.get('op') == 'ref' and nd.get('name') == foot_name for nd in walk(c.args[1]))]
+    foot = foot[0] if foot else fw[-1]
+    PAY = 0x500000
+    from ..ir import path_of
+    hp = None
+    for c in fw:
+        for a_ in c.args[1:]:
+            for nd in walk(a_):
+                if nd.get('op') == 'member' and nd.get('field') == 'payload_length':
+                    hp = nd
     bad = []
     vals = {}
-    for L in range(1, 65):
-        env = {str(lp): L, 'payload_length': L, 'self': 1, 'payload': 1}
-        # also bind the spelled path (hdr->payload_length)
-        from ..ir import path_of
-        sp = path_of(strip_casts(pay.args[2]))
-        if sp is not None:
-            env[str(sp)] = L
-        got = values_at(P, wr, foot, foot.args[2], env)
+    shapes = set()
+    for L in list(range(1, 65)) + [255, 256, 257, 300, 1000, 4093]:
+        env = {'payload_length': L, 'self': 1, 'payload': PAY, 'self.hdr.tag': 1, 'self.backend.fpos': 0, 'self.backend.fend': 0}
+        if hp is not None:
+            for pp in (wr.path(hp), path_of(hp)):
+                if pp is not None:
+                    env[str(pp)] = L
+        try:
+            calls = trace_calls(P, wr, env, assume_calls=0)
+        except Top:
+            bad.append('L=%d: the write sequence is not decidable from the payload length' % L)
+            break
+        filled = {}
+        stream = []      # (source, offset in source, length)
+        err = None
+        for callee, args, ev in calls:
+            if callee in ('memcpy', '__builtin_memcpy', '__builtin___memcpy_chk') and len(args) >= 3:
+                dst, src, n = args[0], args[1], args[2]
+                if isinstance(dst, tuple) and dst[0] in ('var', 'off') and isinstance(n, int):
+                    off = dst[2] if dst[0] == 'off' else 0
+                    filled.setdefault(dst[1], []).append((off, src, n))
+            if callee != 'jls_bk_fwrite' or len(args) < 3:
+                continue
+            buf, n = args[1], args[2]
+            if not isinstance(n, int):
+                err = 'write length not decidable'
+                break
+            if isinstance(buf, int):
+                stream.append(('payload', buf - PAY, n))
+            elif isinstance(buf, tuple) and buf[0] == 'var' and buf[1] == foot_name:
+                stream.append(('footer', 0, n))
+            elif isinstance(buf, tuple) and buf[0] == 'var' and buf[1] in filled:
+                pos = 0
+                for off, src, m in sorted(filled[buf[1]], key=lambda t: t[0]):
+                    if off != pos:
+                        err = 'staging buffer %s has a hole at %d' % (buf[1], pos)
+                        break
+                    if isinstance(src, int):
+                        stream.append(('payload', src - PAY, m))
+                    elif isinstance(src, tuple) and src[0] == 'var' and src[1] == foot_name:
+                        stream.append(('footer', 0, m))
+                    else:
+                        err = 'staging buffer %s filled from an unknown source' % buf[1]
+                        break
+                    pos += m
+                if err is None and pos != n:
+                    err = 'staging buffer %s: %d bytes filled, %d written' % (buf[1], pos, n)
+            else:
+                err = 'write from an unknown buffer'
+            if err:
+                break
         try:
             want = fd.call(need, [L])
         except Top:
             raise AnalysisBroken('payload_size_on_disk not evaluable')
-        if None in got or len(got) != 1:
-            bad.append('L=%d: footer length not decidable (%s)' % (L, got))
-            break
-        total = L + got.pop()
-        vals[L % 8] = total - L
-        if total != want:
-            bad.append('L=%d: writer emits %d bytes, reader expects %d' % (L, total, want))
-        if (hdr_size + total) % 8:
-            bad.append('L=%d: chunk size %d is not a multiple of 8' % (L, hdr_size + total))
+        if err is None:
+            shapes.add(tuple(s_[0] for s_ in stream))
+            if [s_[0] for s_ in stream] != ['payload', 'footer'] or stream[0][1] != 0 or stream[0][2] != L or stream[1][1] != 0:
+                err = 'bytes on disk are not payload[0..L) followed by the footer from its first byte: %s' % stream
+        if err is None:
+            total = stream[0][2] + stream[1][2]
+            vals[L % 8] = total - L
+            if total != want:
+                err = 'writer emits %d bytes, reader expects %d' % (total, want)
+            elif (hdr_size + total) % 8:
+                err = 'chunk size %d is not a multiple of 8' % (hdr_size + total)
+        if err:
+            bad.append('L=%d: %s' % (L, err))
     ctx.ob('C05.4', not bad, wr.name, 'on-disk payload size agrees with the reader for every residue', foot.where(),
-           'pad+crc per residue %s' % sorted(vals.items()) if not bad else '; '.join(bad[:3]))
+           'payload then footer; pad+crc per residue %s' % sorted(vals.items()) if not bad else '; '.join(bad[:3]))
     # zero fill: memset(footer, 0, sizeof) dominates the footer stores and the write
-    fp = wr.path(foot.args[1])
-    ms = [c for c in wr.calls(('memset', '__builtin_memset', '__builtin___memset_chk')) if wr.path(c.args[0]) is not None and fp is not None
-          and wr.path(c.args[0]).root == fp.root and const_of(c.args[1]) == 0]
-    ok = bool(ms) and all(ev_dominates(ms[0], foot) for _ in [0])
+    class _FP(tuple):
+        @property
+        def root(self):
+            return self[1]
+    fp = _FP(('local', foot_name))
+    ms = [c for c in wr.calls(('memset', '__builtin_memset', '__builtin___memset_chk')) if wr.path(c.args[0]) is not None
+          and wr.path(c.args[0]).root == foot_name and const_of(c.args[1]) == 0]
+    ok = bool(ms) and all(ev_dominates(ms[0], c_) for c_ in fw)
     full = bool(ms) and const_of(ms[0].args[2]) is not None and const_of(ms[0].args[2]) >= 11
     ctx.ob('C05.4', ok and full, wr.name, 'pad bytes are zero', foot.where(), 'footer zero-filled (%s bytes) before use' % (const_of(ms[0].args[2]) if ms else None))
     # crc bytes at footer[pad + i] with shift 8*i, from jls_crc32c(payload, length)
